@@ -73,7 +73,9 @@ RowsO == {<<IntV(k)>> : k \in {1, 2, 3}}
 RowsZ == {<<IntV(z), StrV(w)>> : z \in {1, 2}, w \in {<<A>>, <<B>>}}
 Dbs6 == {[l |-> [cols |-> ColsL, rows |-> rl], r |-> [cols |-> ColsR, rows |-> rr], z |-> [cols |-> ColsZ, rows |-> rz], o |-> [cols |-> ColsO, rows |-> ro]] :
             rl \in SeqsUpTo(RowsL, 2), rr \in SeqsUpTo(RowsR, 2),
-            rz \in {<<>>, <<<<IntV(1), StrV(<<A>>)>>>>, <<<<IntV(2), StrV(<<B, B>>)>>, <<IntV(1), StrV(<<A>>)>>>>},
+            rz \in {<<>>, <<<<IntV(1), StrV(<<A>>)>>>>, <<<<IntV(2), StrV(<<B, B>>)>>, <<IntV(1), StrV(<<A>>)>>>>,
+                    \* duplicate keys in the third table of a chain: an intermediate row with several partners
+                    <<<<IntV(1), StrV(<<A>>)>>, <<IntV(2), StrV(<<A>>)>>, <<IntV(1), StrV(<<B, B>>)>>, <<IntV(2), StrV(<<B, B>>)>>>>},
             ro \in {<<>>, <<<<IntV(2)>>, <<IntV(3)>>>>, <<<<IntV(1)>>, <<IntV(1)>>, <<IntV(3)>>>>}}
 JTs == {"inner", "left", "right"}
 OnLR == { << <<Cmp(Col("l", "k"), "=", Col("r", "k"))>> >>,
@@ -92,7 +94,8 @@ Froms6 == {<<From1("l", ""), [tbl |-> "r", alias |-> "", jt |-> jt, on |-> on]>>
 \* an unqualified name that exists on both sides, in an operand of ON that an earlier operand may already have decided
 \* (AND after a false comparison, OR after a true one): it must be refused all the same
 FromsAmbOn6 == {<<From1("l", ""), [tbl |-> "r", alias |-> "", jt |-> jt, on |-> on]>> : jt \in JTs,
-                   on \in { << <<Cmp(Col("l", "id"), "=", Col("r", "y")), Cmp(Col("", "k"), "=", Lit(IntV(1)))>> >>,
+                   on \in { << <<Cmp(Col("", "k"), "=", Col("r", "k"))>> >>, << <<Cmp(Col("l", "k"), "=", Col("", "k"))>> >>,   \* a lone equality
+                            << <<Cmp(Col("", "k"), "=", Col("", "k"))>> >>, << <<Cmp(Col("l", "id"), "=", Col("r", "y")), Cmp(Col("", "k"), "=", Lit(IntV(1)))>> >>,
                             << <<Cmp(Col("l", "id"), "<", Col("r", "y"))>>, <<Cmp(Col("", "k"), "=", Lit(IntV(1)))>> >> }}
 FromsSame6 == {<<From1("l", ""), [tbl |-> "l", alias |-> "", jt |-> jt, on |-> << <<Cmp(Lit(IntV(1)), "=", Lit(IntV(1)))>> >>]>> : jt \in JTs}
               \cup {<<From1("l", ""), [tbl |-> "r", alias |-> "l", jt |-> "inner", on |-> << <<Cmp(Col("", "id"), "=", Lit(IntV(2)))>> >>]>>}
